@@ -76,7 +76,7 @@ Fixpoint concat_out (l : list (outcome bytes)) : outcome bytes :=
 
 Definition enc_item (it : N * N * bytes) : bytes :=
   let '(mid, seq, body) := it in
-  le64 mid ++ le32 seq ++ le32 ((16 + blen body) mod two32) ++ body.
+  le64 mid ++ le32 seq ++ le32 (blen body mod two32) ++ body.
 
 Section Enc.
   Variable U : universe.
